@@ -46,6 +46,7 @@ def rfcHdr (k : Nat) : Nat := if k = 0 then 1 else if k = 3 then 3 else 2
     subcodes: 1 maximum prefixes, 2 administrative shutdown, 3 peer de-configured, 4 reset). -/
 def rfcNotif (c : Cfg) (s : St) (e : Ev) : Option (Nat × Nat) :=
   match s.st, e with
+  -- a transport fault (`close`, `connLost`) never provokes a NOTIFICATION: the `_, _` case
   | .opensent, .open o => (rfcOpenErr c o).map (fun sub => (2, sub))
   | .opensent, .keepalive | .opensent, .update _ | .opensent, .refresh
   | .opensent, .notification => some (5, 1)
@@ -228,6 +229,59 @@ theorem collision_rule (lid las rid ras : Nat) :
     simp; omega
 
 example : dominant 5 1 4 9 = true ∧ dominant 4 9 5 1 = false := by decide
+
+/-- **transport_fault** — in every state that reads from the connection (OPENSENT, OPENCONFIRM,
+    ESTABLISHED) a transport failure at any point of a message (between messages, inside the
+    header, between header and body, inside the body) brings the session to IDLE at that very
+    instant: the only output is the reported transition, no NOTIFICATION is written, hold timer
+    and keepalive ticker are stopped and the Adj-RIB-In is emptied. -/
+theorem transport_fault (c : Cfg) (s : St) (e : Ev) (hd : s.deleted = false) (hs : isSession s)
+    (he : e = .close ∨ ∃ k, e = .connLost k) :
+    (step c s e).2 = [.trans s.st .idle s.admin s.now] ∧
+    (step c s e).1.st = .idle ∧ (step c s e).1.now = s.now ∧
+    (step c s e).1.holdT = none ∧ (step c s e).1.kaT = none ∧ (step c s e).1.rib = 0 := by
+  unfold step
+  simp only [hd]
+  rcases he with he | ⟨k, he⟩ <;> subst he <;> rcases hs with h | h | h <;>
+    simp [h, onOpensent, onOpenconfirm, onEstablished, toIdle]
+
+example : (step ⟨65001, 1, 65002, 90, 30, 30, 0⟩ { init with st := .established, rib := 3, holdT := some 90 }
+    (.connLost 2)).1.st = .idle := by decide
+
+/-- **session_open_validated** — whichever way a connection collision in OPENSENT is resolved
+    (the accepted connection's OPEN seen first, or the completed outgoing connection seen first),
+    the OPEN the session is negotiated from has passed ValidateOpenMsg, provided the one the
+    outgoing-connection manager hands over has (it only hands over validated ones); and when
+    both OPENs are acceptable and come from one speaker the survivor is the one `collision_rule`
+    names, on either path. -/
+theorem session_open_validated (c : Cfg) (inc out : OpenMsg) (hout : validateOpen c out = none) :
+    (∀ k o, collideIncomingFirst c inc out = .session k o → validateOpen c o = none) ∧
+    (∀ k o, collideOutgoingFirst c inc out = .session k o → validateOpen c o = none) := by
+  constructor
+  · intro k o h
+    unfold collideIncomingFirst at h
+    cases hv : validateOpen c inc with
+    | some sub => simp [hv] at h
+    | none =>
+      simp only [hv] at h
+      split at h <;> (cases h; first | exact hout | exact hv)
+  · intro k o h
+    unfold collideOutgoingFirst at h
+    cases hv : validateOpen c inc with
+    | some sub => simp only [hv] at h; cases h; exact hout
+    | none =>
+      simp only [hv] at h
+      split at h <;> (cases h; first | exact hout | exact hv)
+
+theorem collision_paths_agree (c : Cfg) (inc out : OpenMsg) (hinc : validateOpen c inc = none)
+    (hid : inc.id = out.id) (has : inc.as = out.as) :
+    collideIncomingFirst c inc out = collideOutgoingFirst c inc out ∧
+    collideOutgoingFirst c inc out =
+      (if dominant c.localID c.localAS out.id out.as then .session .o out else .session .p inc) := by
+  simp [collideIncomingFirst, collideOutgoingFirst, hinc, hid, has]
+
+example : collideOutgoingFirst ⟨65001, 1, 65002, 90, 30, 30, 0⟩ ⟨4, 65002, 2, 1⟩ ⟨4, 65002, 2, 90⟩
+    = .session .o ⟨4, 65002, 2, 90⟩ := by decide
 
 /-- what the operator's requests and the prefix limit make of the administrative state -/
 def adminSpec (c : Cfg) (s : St) (e : Ev) : Admin :=
